@@ -889,6 +889,7 @@ func (x *exec) finish(st *State, out Outcome) {
 	if out.Fr != nil {
 		// local variables of the function (their values at this return) may be named in ensures
 		se.frame = out.Fr
+		se.lenient = true
 	}
 	for _, e := range ct.Ensures {
 		se.what = "ensures " + e.Label + " of " + x.ctx.Key
